@@ -106,7 +106,7 @@ def _spec(draw):
         s = draw(c14._spec())
         return dict(kind='ctrl', c=s)
     ms = sbmlgen.draw_model(draw, max_states=4)
-    ops = [draw(st.sampled_from(['A0', 'A1', 'O0', 'O1', 'S1'])) for _ in range(draw(st.integers(0, 4)))]
+    ops = [draw(st.sampled_from(['A0', 'A1', 'O0', 'O1', 'S1', 'NP', 'F'])) for _ in range(draw(st.integers(0, 6)))]
     return dict(kind='mech', ms=ms, ops=ops)
 
 
@@ -490,9 +490,22 @@ def check(case):
                 else:
                     case.equal(np.shape(res), (no, 3), '%s: output shape' % what, kind='shape')
             inv('fresh')
+            n_ren = 0
             for i, op in enumerate(s['ops']):
                 if op in ('A0', 'A1'):
+                    if isinstance(M, chi.ReducedMechanisticModel):
+                        continue
                     M.set_administration(comp['id'], amount_var='%s_amount' % comp['sid'], direct=op == 'A0')
+                elif op == 'NP':
+                    # a display name for the first free parameter
+                    n_ren += 1
+                    M.set_parameter_names({M.parameters()[0]: 'Display name %d' % n_ren})
+                elif op == 'F':
+                    # fix the last free parameter (keeps at least one free)
+                    if not isinstance(M, chi.ReducedMechanisticModel):
+                        M = chi.ReducedMechanisticModel(M)
+                    if M.n_parameters() >= 2:
+                        M.fix_parameters({M.parameters()[-1]: 0.7})
                 elif op == 'O0':
                     M.set_outputs([sq[0]])
                 elif op == 'O1':
